@@ -128,6 +128,10 @@ def gen_geo_case(rng):
         # colatitude of the row nearest to the pole: at least 7e-4 degrees (78 m from the pole), where a degree of longitude is
         # still 1.36 m long -- see POLAR_MIN_COLAT
         colat0 = max(sy * rng.choice([0.5, 1.0, 2.0, 4.0]), POLAR_MIN_COLAT * rng.choice([1.0, 1.0, 1.5, 3.0]))
+        # since the repair of D28 (single block when a degree of longitude is shorter than pi/2 m on some row) the stream also goes
+        # below that limit, down to half a cell from the pole
+        if rng.random() < 0.3:
+            colat0 = max(sy * 0.5, POLAR_MIN_COLAT * rng.choice([0.02, 0.1, 0.35, 0.6, 0.9]))
         south = rng.random() < 0.3
         top = 90.0 - colat0
         y0 = -top if south else top - (h - 1) * sy                  # the smallest latitude of the raster
